@@ -79,7 +79,7 @@ type Personalisation struct {
 // Behaviour knobs: legitimate variation between real chips.
 type Behaviour struct {
 	MaxResp          int    // max READ BINARY data bytes per response (0 = no cap)
-	ShortMode        string // "", "one", "alt", "rand", "fixed"
+	ShortMode        string // "", "one", "alt", "rand", "fixed", "first"
 	ShortFixed       int
 	LeCap            int  // READ BINARY with Le above this is answered 6700 (protected under SM); 0 = none
 	ExtLen           bool // extended-length APDUs supported; otherwise plain 6700, SM state untouched
@@ -153,6 +153,7 @@ type Chip struct {
 	// volatile
 	inLDS    bool
 	curEF    uint16
+	shortDone bool
 	selCount map[string]int
 	curInLDS bool
 	hasEF    bool
@@ -528,6 +529,12 @@ func (c *Chip) doReadBinary(cmd CAPDU, viaSM bool, ex *Exchange) ([]byte, uint16
 	case "fixed":
 		if c.B.ShortFixed > 0 {
 			n = min(n, c.B.ShortFixed)
+		}
+	case "first":
+		// only the first read after the header read (offset >= 4) is answered short: shifts the whole chunk grid
+		if c.B.ShortFixed > 0 && offset >= 4 && !c.shortDone {
+			n = min(n, c.B.ShortFixed)
+			c.shortDone = true
 		}
 	}
 	status := uint16(0x9000)
